@@ -28,7 +28,7 @@ func newMonitors(res *lib.Result) *monitors {
 		tol:      res.Monitor("tolerance-exact", "cmp.Equal(tolerance comparers)(x,y) must equal: proto.Equal of x,y with the compared kinds blanked AND every corresponding pair of that kind within tolerance by exact math/big arithmetic (only cases where the code's float ops are exact); value comparers must answer ok=false on other kinds"),
 		symrefl:  res.Monitor("symmetry-reflexivity", "every comparer: eq(x,y)==eq(y,x); eq(x,x)==true (non-negative tolerances)"),
 		logic:    res.Monitor("and-or", "And(es)(x,y) == all e(x,y); Or(es)(x,y) == any e(x,y); ValueAnd/ValueOr: ok == any ok_i, equal == all/any over the ok ones (true/false when none is ok)"),
-		delivery: res.Monitor("no-dup-delivery", "through Value.Pull / Collection.Pull with an equivalence E and backpressure: an update is delivered iff it is not E-equivalent to the value the subscriber holds (last delivered, after the read mask; with WithInclude: after include, membership changes always delivered, folded view ids = List(WithInclude) after every write). WITHOUT backpressure (events dropped/merged by the bus before the equivalence check): deliveries are a subsequence of the writes, no delivery is E-equivalent to the one before it, and the subscriber's view converges to the stored state once writes stop"),
+		delivery: res.Monitor("no-dup-delivery", "through Value.Pull / Collection.Pull with an equivalence E and backpressure: an update is delivered iff it is not E-equivalent to the value the subscriber holds (last delivered, after the read mask; with WithInclude: after include, membership changes always delivered, folded view ids = List(WithInclude) after every write). WITHOUT backpressure (events dropped/merged by the bus before the equivalence check): deliveries are a subsequence of the writes, no delivery is E-equivalent to the one before it, and the subscriber's view converges to the stored state once writes stop. Round 7: (a) the change a Collection.Update announces goes from what was stored when it committed (nothing iff absent: ADD) to what it stored, for every rival placed between its two reads (exhaustive); (b) trait-level streams with an equivalence of their own (openclose PullPositions: cmp.Equal() against the last emitted positions; electric PullDemand and energystorage PullEnergyLevel: default tolerance equivalences) under read masks and updates-only: no delivery is equivalent (oracle: proto.Equal / exact arithmetic) to the one before it, and after every write the subscriber's copy becomes equivalent to the masked current value"),
 		free: res.Monitor("free-running-lossy", "free-running slow subscribers, schedules driven step by step (independent mirrors: latest write; per id the value at the last take, the value now, the order of the latest event). minibus.DropExcess: hands over the latest message, once, nothing else. mergeCollectionExcess: every change handed over goes from the value stored when that id's change was last handed over to the value stored now (ADD/REMOVE/UPDATE|REPLACE accordingly), ids in the order of their latest event, absent->absent not reported, nothing lost. Value.Pull without backpressure end to end: each value taken is the latest write, delivered iff NOT E-equivalent to what the subscriber holds, and a subscriber that has caught up holds the stored value or an equivalent one"),
 	}
 }
@@ -474,7 +474,7 @@ func (g *gen) pair() (x, y proto.Message, label string) {
 
 func runEquator(f lib.Flags, res *lib.Result, drv *lib.Driver, ms *monitors) {
 	tie := res.Tie("equator", "K1",
-		"random pairs: ancestor of a random type (TestAllTypes, WellKnown, PullAirTemperatureResponse(.Change), PullOnOffResponse, ForeignMessage) populated from tiny domains; y = ancestor mutated in 0-3 places (scalar set/clear/default, float nudge/NaN/±Inf/-0, message clear/empty/replace, Timestamp/Duration nudge, list append/truncate/swap/element, map set/delete/value, unknown-field append/drop/swap/swap-adjacent/replace/repeat-a-number/replace-with-same-length over varint, bytes, fixed32, fixed64 and group records of three numbers), x sometimes mutated once; top-level nil / typed nil / other type; comparer = Equal(), Equal(tolerances around the introduced differences; also several of one kind), ValueAnd/ValueOr inside, And/Or outside. Each case is evaluated on (x,y),(y,x),(x,x),(y,y). Non-trivial: distinct (spec,x,y) whose (x,y) verdict is false or which carries a mutation")
+		"random pairs: ancestor of a random type (TestAllTypes, WellKnown, PullAirTemperatureResponse(.Change), PullOnOffResponse, ForeignMessage, and verif.c16.Times - a type built at start-up with protodesc/dynamicpb in which the compared kinds are the ELEMENTS of repeated fields and map values themselves: repeated Timestamp / Duration / DoubleValue / FloatValue / double, map<string,Timestamp>, map<int32,Duration>, a recursive repeated field and a nested Change with change_time) populated from tiny domains; y = ancestor mutated in 0-3 places (scalar set/clear/default, float nudge/NaN/±Inf/-0, message clear/empty/replace, Timestamp/Duration nudge (singular, list element, map value), list append/truncate/swap/element, map set/delete/value, unknown-field append/drop/swap/swap-adjacent/replace/repeat-a-number/replace-with-same-length over varint, bytes, fixed32, fixed64 and group records of three numbers), x sometimes mutated once; top-level nil / typed nil / other type; comparer = Equal(), Equal(tolerances around the introduced differences; also several of one kind), ValueAnd/ValueOr inside, And/Or outside. Each case is evaluated on (x,y),(y,x),(x,x),(y,y). Non-trivial: distinct (spec,x,y) whose (x,y) verdict is false or which carries a mutation")
 	g := &gen{r: lib.NewRand(f.Seed)}
 	n := f.N(6000, 120000)
 	const batch = 500
